@@ -159,7 +159,17 @@ def rule_selfexcl(ctx):
     s = ctx.S.get(f.qual)
     cfr = [c for c in s.calls() if c.callee == "hierarchy._compare_frame_rankings"]
     need(len(cfr) == 1 and len(cfr[0].args) >= 2, R, "_gauc: ranking comparison not found")
-    a, b = cfr[0].args[0], cfr[0].args[1]
+    # the shapes of the two matrices were validated to agree: `est_lca.shape` and `ref_lca.shape` are one value
+    eqs = common.path_shape_equalities(cfr[0].pc)
+    a, b = common.rewrite_equal(cfr[0].args[0], eqs), common.rewrite_equal(cfr[0].args[1], eqs)
+
+    def bounds(t):
+        """(lo, hi) of a[lo:hi] / slice(lo, hi)"""
+        if t.op == "slice" and len(t.a) >= 2:
+            return t.a[0], t.a[1]
+        if t.op == "call" and call_name(t) == "builtins.slice" and len(t.a[1]) == 2:
+            return t.a[1][0], t.a[1][1]
+        return None
 
     def parts(x):
         """np.concatenate((v[:i], v[i+1:])) -> (v, i, j)"""
@@ -187,10 +197,17 @@ def rule_selfexcl(ctx):
                 q = x
         is_min = idx.op == "call" and call_name(idx) == "builtins.min" and len(idx.a[1]) == 2 and q is not None and any(z is q for z in idx.a[1])
         w = [z for z in idx.a[1] if z is not q][0] if is_min else None
-        sl = [c for c in s.calls() if c.callee == "builtins.slice"]
+        def row(v, pname):
+            for x in tm.walk(v):
+                if x.op == "sub" and x.a[0].op == "param" and x.a[0].a[0] == pname and x.a[1].op == "tuple" and len(x.a[1].a) == 2:
+                    return x.a[1].a
+            return None
+
+        ra, rb = row(pa[0], "ref_lca"), row(pb[0], "est_lca")
+        sl = bounds(ra[1]) if ra is not None else None
         sl_ok = False
-        if is_min and len(sl) == 1 and len(sl[0].args) == 2:
-            lo, hi = sl[0].args
+        if is_min and sl is not None:
+            lo, hi = sl
             lo_ok = lo.op == "call" and call_name(lo) == "builtins.max" and any(tm.is_const(z, 0) for z in lo.a[1]) and any(z.op == "bin" and z.a[0] == "-" and z.a[1] is q and z.a[2] is w for z in lo.a[1])
             hi_ok = hi.op == "call" and call_name(hi) == "builtins.min" and any(z.op == "bin" and z.a[0] == "+" and {z.a[1], z.a[2]} == {q, w} for z in hi.a[1])
             sl_ok = lo_ok and hi_ok
@@ -199,13 +216,6 @@ def rule_selfexcl(ctx):
         rows_ok = False
         va, vb = pa[0], pb[0]
 
-        def row(v, pname):
-            for x in tm.walk(v):
-                if x.op == "sub" and x.a[0].op == "param" and x.a[0].a[0] == pname and x.a[1].op == "tuple" and len(x.a[1].a) == 2:
-                    return x.a[1].a
-            return None
-
-        ra, rb = row(va, "ref_lca"), row(vb, "est_lca")
         rows_ok = ra is not None and rb is not None and ra[0] is rb[0] and ra[1] is rb[1] and ra[0] is q
         yield ob(R, f, "hierarchy._gauc:same-window", rows_ok, "reference and estimate rows are read at the same query and the same window slice")
     # window None -> whole track
